@@ -67,8 +67,16 @@ static inline int ioctx_get_path_mtu(struct io_context *ios, addr_t a, addr_t b)
 struct sink_forwarder { void *m_dst; };
 extern size_t g_fwd_new_calls;
 struct sink_forwarder *nondet_forwarder(void);
-static inline struct sink_forwarder *make_forwarder(void *dst) { struct sink_forwarder *f = nondet_forwarder(); __CPROVER_assume(f != (struct sink_forwarder *)0 && __CPROVER_rw_ok(f, sizeof(*f))); f->m_dst = dst; g_fwd_new_calls++; return f; }
+void *malloc(size_t);
+static inline struct sink_forwarder *make_forwarder(void *dst) { struct sink_forwarder *f = malloc(sizeof(struct sink_forwarder)); __CPROVER_assume(f != (struct sink_forwarder *)0); f->m_dst = dst; g_fwd_new_calls++; return f; }
 static inline void forwarder_reset(struct sink_forwarder *f, void *dst) { f->m_dst = dst; }
+/* route::replace_last(forwarder) */
+extern size_t g_replace_last_calls; extern struct sink_forwarder *g_replace_last_fwd;
+static inline void route_replace_last(route_t *r, struct sink_forwarder *f)
+{
+  __CPROVER_assert(r->len > 0, "[C12.deref] replace_last() on a non-empty route");
+  g_replace_last_calls++; g_replace_last_fwd = f; r->id = ROUTE_SNOC(ROUTE_TAIL(r->id), 0); r->last = 1;
+}
 /* forward_packet as seen from a TCP socket (its body is under contract in the simulator unit).  A queue on the route
  * that tail-drops the packet calls the packet's drop callback - tcp::socket::packet_dropped on THIS socket - before
  * forward_packet returns: modelled by an optional re-entrant call (by contract) */
